@@ -6,7 +6,7 @@ CONSTANTS
   SessionLoss = TRUE
   ClearAfterRequeue = TRUE
   KeepOldWaiter = FALSE
-  SilentLoss = FALSE
+  SilentLoss = TRUE
   LossyWrites = FALSE
 INVARIANT Qos2AtMostOnce
 INVARIANT CompletedIsDelivered
